@@ -95,6 +95,15 @@ func (c *fnCtx) enterLoop(b *ssa.BasicBlock, preds []*ssa.BasicBlock, conds []st
 	}
 	hdrEnv := &loopEnv{phi: li.phiH, st: c.st, entry: entryVals, hdrSt: c.st}
 	entEnv := &loopEnv{phi: entryVals, st: li.entrySt, entry: entryVals, hdrSt: c.st}
+	// The invariants are assumed by strengthening the path condition of everything after the cut, never as
+	// global facts: an inconsistent candidate set must not make its own entry checks vacuous.
+	preReach := c.reach[b]
+	var assumed []string
+	defer func() {
+		if len(assumed) > 0 {
+			c.reach[b] = c.em.define("inloop", "Bool", "(and "+preReach+" "+strings.Join(assumed, " ")+")")
+		}
+	}()
 	for _, cd := range li.cands {
 		if c.dead[cd.name] {
 			continue
@@ -106,7 +115,7 @@ func (c *fnCtx) enterLoop(b *ssa.BasicBlock, preds []*ssa.BasicBlock, conds []st
 			c.dead[cd.name] = true
 			continue
 		}
-		c.em.assert("(=> " + c.reach[b] + " " + f + ")")
+		assumed = append(assumed, f)
 		// entry obligation
 		saved = c.st
 		c.st = li.entrySt.clone()
@@ -116,7 +125,7 @@ func (c *fnCtx) enterLoop(b *ssa.BasicBlock, preds []*ssa.BasicBlock, conds []st
 		if cd.contract {
 			cls = "inv-entry"
 		}
-		c.addLoopObl(cls, cd, li, c.reach[b], fe, "entry")
+		c.addLoopObl(cls, cd, li, preReach, fe, "entry")
 	}
 }
 
@@ -401,30 +410,16 @@ func (c *fnCtx) decObligation(li *loopInfo) {
 				addAlt(h.T[2], b.T[2])
 			case KInt:
 				addAlt(h.T[0], b.T[0])
-				// bound - x for every loop-invariant int compared with the phi in the loop
-				for blk := range li.blocks {
-					for _, in := range blk.Instrs {
-						bo, ok := in.(*ssa.BinOp)
-						if !ok {
-							continue
-						}
-						switch bo.Op {
-						case token.LSS, token.LEQ, token.GTR, token.GEQ, token.NEQ:
-						default:
-							continue
-						}
-						var other ssa.Value
-						if bo.X == ssa.Value(phi) && c.definedOutside(li, bo.Y) {
-							other = bo.Y
-						} else if bo.Y == ssa.Value(phi) && c.definedOutside(li, bo.X) {
-							other = bo.X
-						}
-						if other == nil || !isIntType(other.Type()) {
-							continue
-						}
-						o := c.val(other).T[0]
-						addAlt("(- "+o+" "+h.T[0]+")", "(- "+o+" "+b.T[0]+")")
-					}
+				// len(s) - x for slices defined outside the loop and used in it
+				for _, sv := range c.outerSlicesOf(li) {
+					l := c.val(sv).T[2]
+					addAlt("(- "+l+" "+h.T[0]+")", "(- "+l+" "+b.T[0]+")")
+				}
+				// bound - x (and x - bound) for every loop-invariant int that takes part in a comparison in the loop
+				for _, other := range c.outerBoundsOf(li) {
+					o := c.val(other).T[0]
+					addAlt("(- "+o+" "+h.T[0]+")", "(- "+o+" "+b.T[0]+")")
+					addAlt("(- "+h.T[0]+" "+o+")", "(- "+b.T[0]+" "+o+")")
 				}
 			}
 		}
@@ -446,4 +441,82 @@ func (c *fnCtx) decObligation(li *loopInfo) {
 		o.Cond = "false"
 	}
 	c.obls = append(c.obls, o)
+}
+
+// outerSlicesOf: slice values defined outside the loop that the loop body indexes, slices or measures.
+func (c *fnCtx) outerSlicesOf(li *loopInfo) []ssa.Value {
+	if li.outerSl != nil {
+		return li.outerSl
+	}
+	seen := map[ssa.Value]bool{}
+	var res []ssa.Value
+	note := func(v ssa.Value) {
+		if v == nil || seen[v] {
+			return
+		}
+		if _, ok := v.Type().Underlying().(*types.Slice); ok && c.definedOutside(li, v) {
+			seen[v] = true
+			res = append(res, v)
+		}
+	}
+	var blocks []*ssa.BasicBlock
+	for b := range li.blocks {
+		blocks = append(blocks, b)
+	}
+	sort.Slice(blocks, func(i, j int) bool { return blocks[i].Index < blocks[j].Index })
+	for _, b := range blocks {
+		for _, in := range b.Instrs {
+			switch x := in.(type) {
+			case *ssa.IndexAddr:
+				note(x.X)
+			case *ssa.Slice:
+				note(x.X)
+			case *ssa.Call:
+				if bi, ok := x.Call.Value.(*ssa.Builtin); ok && bi.Name() == "len" {
+					note(x.Call.Args[0])
+				}
+			}
+		}
+	}
+	if res == nil {
+		res = []ssa.Value{}
+	}
+	li.outerSl = res
+	return res
+}
+
+// outerBoundsOf: loop-invariant integer values compared against something inside the loop.
+func (c *fnCtx) outerBoundsOf(li *loopInfo) []ssa.Value {
+	if li.outerB != nil {
+		return li.outerB
+	}
+	seen := map[ssa.Value]bool{}
+	res := []ssa.Value{}
+	var blocks []*ssa.BasicBlock
+	for b := range li.blocks {
+		blocks = append(blocks, b)
+	}
+	sort.Slice(blocks, func(i, j int) bool { return blocks[i].Index < blocks[j].Index })
+	for _, blk := range blocks {
+		for _, in := range blk.Instrs {
+			bo, ok := in.(*ssa.BinOp)
+			if !ok {
+				continue
+			}
+			switch bo.Op {
+			case token.LSS, token.LEQ, token.GTR, token.GEQ, token.NEQ, token.EQL:
+			default:
+				continue
+			}
+			for _, v := range []ssa.Value{bo.X, bo.Y} {
+				if _, isC := v.(*ssa.Const); isC || seen[v] || !isIntType(v.Type()) || !c.definedOutside(li, v) {
+					continue
+				}
+				seen[v] = true
+				res = append(res, v)
+			}
+		}
+	}
+	li.outerB = res
+	return res
 }
